@@ -7,6 +7,9 @@ import (
 	"strings"
 	"sync"
 	"sync/atomic"
+	"time"
+
+	"github.com/facebookincubator/dns/dnsrocks/dnsdata/rdb"
 
 	"verifharness/vlib"
 )
@@ -16,7 +19,7 @@ type params struct {
 	fams      []family
 	maxOrders int   // orders tried per diff: all n! when n! <= maxOrders, else maxOrders selected ones
 	strictMax int   // pairs with <= this many source lines in A and B together also get the fresh-copy/file-API/full-dump transition
-	allFaults bool  // pairs of <=1-line files: every faulty line at every position (else the first line of each class, first and last position)
+	allFaults bool  // pairs of <=1-line files: every faulty line (else the first line of each class) at every position; every byte as a read cut
 	bfsDepth  int   // diffs in a BFS chain
 	walkDepth int   // diffs in a physical walk
 	walkLines []int // the walk universe is the empty file and the one-line files of these source lines
@@ -276,6 +279,13 @@ var malformed = []fault{
 	{"op-only", "+", nil},
 	{"op-only", "-", nil},
 	{"bad-location", "++a.example.com,1.1.1.9,3600,,\\", nil},
+	// a data line that lost its '+'/'-' prefix (the first byte of the record is then taken for the operation)
+	{"no-op-prefix", "+a.example.com,1.1.1.9,3600", nil},
+	{"no-op-prefix", "Zexample.com,ns.example.com,admin.example.com,42,7200,1800,604800,300,120,,", nil},
+	{"no-op-prefix", "a.example.com,1.1.1.9,3600", nil},
+	{"not-a-line", "\x00", nil},
+	{"not-a-line", "garbage", nil},
+	{"not-a-line", "\xef\xbb\xbf++a.example.com,1.1.1.9,3600", nil}, // a valid line behind a UTF-8 byte order mark
 }
 
 // undeletable lines that are in no data file at all
@@ -349,19 +359,16 @@ func (w *world) faultPlan(li, a, b int, diff []string, universe []string) (out [
 	for fi, ft := range faults {
 		var pos []int
 		switch {
-		case small && w.p.allFaults:
+		case small:
+			// pairs of <=1-line files: at every position of the diff; quick tier: the first line of every class
+			if !w.p.allFaults {
+				if seenClass[ft.class] {
+					continue
+				}
+				seenClass[ft.class] = true
+			}
 			for p := 0; p <= len(diff); p++ {
 				pos = append(pos, p)
-			}
-		case small:
-			// quick tier: the first line of every class, before the first and after the last valid line
-			if seenClass[ft.class] {
-				continue
-			}
-			seenClass[ft.class] = true
-			pos = []int{0}
-			if len(diff) > 0 {
-				pos = append(pos, len(diff))
 			}
 		default:
 			// every other pair: one undeletable and one malformed line (rotating through the
@@ -408,6 +415,13 @@ func (w *world) pairTransitions(f *findings, bfs *bfs) {
 		for b := 0; b < n; b++ {
 			B := w.states[b]
 			cb := w.comp[li][b]
+			if A.bulk || B.bulk {
+				// bulk files are paired with each other and with the empty file only
+				if (A.bulk || len(A.src) == 0) && (B.bulk || len(B.src) == 0) {
+					w.bulkPair(s, f, bfs, li, a, b)
+				}
+				continue
+			}
 			diff := lineDiff(A.pre, B.pre)
 			perms, complete := orders(diff, w.p.maxOrders)
 			atomic.AddInt64(&cnt.Pairs, 1)
@@ -464,41 +478,18 @@ func (w *world) pairTransitions(f *findings, bfs *bfs) {
 			}
 
 			for _, fp := range w.faultPlan(li, a, b, diff, universe) {
-				ft := fp.ft
-				fkeys := keys
-				if len(ft.keys) > 0 {
-					extra := map[string][]string{}
-					for _, k := range ft.keys {
-						extra[k] = nil
-					}
-					fkeys = keysOf(ca.ref, cb.ref, extra)
-				}
 				for _, pos := range fp.pos {
-					lines := insertAt(diff, pos, ft.line)
-					res := s.apply(lines)
-					got, rerr := s.read(fkeys)
-					atomic.AddInt64(&cnt.Applies, 1)
-					atomic.AddInt64(&cnt.Evals, 1)
-					atomic.AddInt64(&cnt.Faulty, 1)
-					atomic.AddInt64(&cnt.FaultyNontrivial, nontrivial)
-					kind := ""
-					switch {
-					case res.panicked != nil:
-						kind = "fault-panic"
-					case res.err == nil:
-						kind = "fault-accepted"
-					case rerr != nil || got.id() != ca.rawID:
-						kind = "fault-mutated"
-					}
-					if kind != "" {
-						det := fmt.Sprintf("%s: store compiled from %s, diff towards %s with faulty line %q (%s) at position %d of %d: %q\nApplyDiff: %s\nstore before vs after: %s %v",
-							layouts[li], A.name, B.name, ft.line, ft.class, pos, len(diff), lines, res, orSame(diffExact(got, ca.ref)), rerr)
-						f.add(&failure{kind: kind, sub: ft.class, li: li, path: []int{a, b}, detail: det, diffs: [][]string{lines}})
-					}
-					if kind != "" || got.id() != ca.rawID {
-						s.restore(fkeys, got, rerr == nil && res.panicked == nil)
-					}
+					w.runFault(s, f, li, a, b, diff, fp.ft, pos, keys)
 				}
+			}
+
+			// (2b) failure modes of the diff input itself, and other encodings of the same diff
+			small := len(A.src) <= 1 && len(B.src) <= 1
+			for _, ic := range inputPlan(diff, small, small && w.p.allFaults, a+b) {
+				w.runInput(s, f, li, a, b, diff, ic, keys)
+			}
+			if w.fileFaultPair(a, b) {
+				w.fileInputFaults(f, li, a, b, diff)
 			}
 		}
 
@@ -513,6 +504,197 @@ func (w *world) pairTransitions(f *findings, bfs *bfs) {
 			f.add(&failure{kind: "residue", li: li, path: []int{a}, detail: det})
 		}
 	})
+}
+
+// runFault applies diff with the faulty line ft inserted at pos through the
+// session on compile(A): it must fail and leave the store exactly as it was.
+func (w *world) runFault(s *session, f *findings, li, a, b int, diff []string, ft fault, pos int, keys []string) {
+	ca := w.comp[li][a]
+	fkeys := keys
+	if len(ft.keys) > 0 {
+		extra := map[string][]string{}
+		for _, k := range ft.keys {
+			extra[k] = nil
+		}
+		fkeys = keysOf(map[string][]string{}, extra, toMap(keys))
+	}
+	lines := insertAt(diff, pos, ft.line)
+	res := s.apply(lines)
+	got, rerr := s.read(fkeys)
+	atomic.AddInt64(&cnt.Applies, 1)
+	atomic.AddInt64(&cnt.Evals, 1)
+	atomic.AddInt64(&cnt.Faulty, 1)
+	if len(diff) > 0 {
+		atomic.AddInt64(&cnt.FaultyNontrivial, 1)
+	}
+	kind := ""
+	switch {
+	case res.panicked != nil:
+		kind = "fault-panic"
+	case res.err == nil:
+		kind = "fault-accepted"
+	case rerr != nil || got.id() != ca.rawID:
+		kind = "fault-mutated"
+	}
+	if kind != "" {
+		det := fmt.Sprintf("%s: store compiled from %s, diff towards %s with faulty line %q (%s) at position %d of %d: %q\nApplyDiff: %s\nstore before vs after: %s %v",
+			layouts[li], w.states[a].name, w.states[b].name, ft.line, ft.class, pos, len(diff), head(lines, 12), res, orSame(diffExact(got, ca.ref)), rerr)
+		f.add(&failure{kind: kind, sub: ft.class, li: li, path: []int{a, b}, detail: det, diffs: [][]string{lines}})
+	}
+	if kind != "" || got.id() != ca.rawID {
+		s.restore(fkeys, got, rerr == nil && res.panicked == nil)
+	}
+}
+
+func toMap(keys []string) map[string][]string {
+	m := make(map[string][]string, len(keys))
+	for _, k := range keys {
+		m[k] = nil
+	}
+	return m
+}
+
+// bulkPair: the diff between two bulk files (or a bulk file and the empty
+// file) in the bulk orders, with faulty lines and input failures deep inside it.
+func (w *world) bulkPair(s *session, f *findings, bfs *bfs, li, a, b int) {
+	A, B := w.states[a], w.states[b]
+	ca, cb := w.comp[li][a], w.comp[li][b]
+	diff := lineDiff(A.pre, B.pre)
+	perms := [][]int{nthPerm(len(diff), 0)}
+	if len(diff) > 1 {
+		perms = bulkOrders(diff)
+	}
+	atomic.AddInt64(&cnt.Pairs, 1)
+	if len(diff) > 1 {
+		atomic.AddInt64(&cnt.PairsCapped, 1)
+	} else {
+		atomic.AddInt64(&cnt.PairsAllOrders, 1)
+	}
+	atomicMax(&cnt.MaxDiffLines, int64(len(diff)))
+	keys := keysOf(ca.ref, cb.ref)
+	var v verdicts
+	for _, p := range perms {
+		lines := permute(diff, p)
+		res := s.apply(lines)
+		got, rerr := s.read(keys)
+		atomic.AddInt64(&cnt.Applies, 1)
+		atomic.AddInt64(&cnt.Evals, 1)
+		atomic.AddInt64(&cnt.Bulk, 1)
+		if len(diff) > 0 {
+			atomic.AddInt64(&cnt.SingleNontrivial, 1)
+		}
+		if v.judge(res, got, rerr, cb, head(lines, 12), "session") {
+			if id := got.id(); id != cb.rawID {
+				bfs.offer(&rawState{li: li, id: id, canon: b, start: a, hist: [][]string{lines}, path: []int{a, b}})
+			}
+		}
+		s.restore(keys, got, rerr == nil && res.panicked == nil)
+	}
+	if v.kind != "" {
+		det := fmt.Sprintf("%s: %s -> %s (%d diff lines): %d of %d orders fail\n%s", layouts[li], A.name, B.name, len(diff), len(v.bad), v.tried, strings.Join(head(v.bad, 2), "\n"))
+		f.add(&failure{kind: v.kind, li: li, path: []int{a, b}, detail: det, diffs: [][]string{v.firstBad}})
+	}
+	if len(diff) == 0 {
+		return
+	}
+	// faulty lines in the middle of the diff and after its last line
+	faults := []fault{{"del-absent-key", "-" + strangerKeyLine, nil}, {"del-absent-value", "-" + strangerValueLine, nil}, malformed[(a+b)%len(malformed)]}
+	if len(B.src) == 0 {
+		faults = append(faults, fault{"del-once-too-often", "-" + A.pre[0], nil})
+	}
+	for i := range faults {
+		if faults[i].line[0] == '-' && len(faults[i].line) > 1 && faults[i].class[:3] == "del" {
+			for _, r := range recordsOf(layouts[li], faults[i].line[1:]) {
+				faults[i].keys = append(faults[i].keys, r.key)
+			}
+		}
+		for _, pos := range []int{len(diff) / 2, len(diff)} {
+			w.runFault(s, f, li, a, b, diff, faults[i], pos, keys)
+			atomic.AddInt64(&cnt.BulkFaulty, 1)
+		}
+	}
+	for _, ic := range bulkInputPlan(diff) {
+		w.runInput(s, f, li, a, b, diff, ic, keys)
+		atomic.AddInt64(&cnt.BulkFaulty, 1)
+	}
+}
+
+// fileFaultPair: the pairs whose input failures are also tried through the file
+// entry point (fresh copy, rdb.ApplyDiff(path, dir), full dump): the pairs of the
+// empty file and a one-line file - in the quick tier only the first one-line file.
+func (w *world) fileFaultPair(a, b int) bool {
+	A, B := w.states[a], w.states[b]
+	if A.bulk || B.bulk || len(A.src)+len(B.src) != 1 {
+		return false
+	}
+	return w.p.allFaults || a+b == 1
+}
+
+// fileInputFaults: failure modes of the diff FILE given to the tool's entry
+// point rdb.ApplyDiff(diffpath, dbpath) (open store, open file, derive serial,
+// apply, close): must fail and leave the closed store, dumped in full, exactly
+// as compile(A).
+func (w *world) fileInputFaults(f *findings, li, a, b int, diff []string) {
+	ca := w.comp[li][a]
+	type fc struct {
+		class, desc string
+		mk          func(path string)
+	}
+	mt := time.Unix(int64(dnsfixSerial), 0)
+	cases := []fc{
+		{"file-missing", "the diff path does not exist", func(string) {}},
+		{"file-is-directory", "the diff path is a directory (it can be opened; reading it fails)", func(p string) {
+			if err := os.Mkdir(p, 0o755); err != nil {
+				vlib.Infra("mkdir: %v", err)
+			}
+			os.Chtimes(p, mt, mt)
+		}},
+		{"file-long-line", fmt.Sprintf("the diff file holds the diff lines and then a '+xxx...' line of %d bytes", scanLimit), func(p string) {
+			if err := os.WriteFile(p, diffText(insertAt(diff, len(diff), longLine("+", scanLimit))), 0o644); err != nil {
+				vlib.Infra("write diff: %v", err)
+			}
+			os.Chtimes(p, mt, mt)
+		}},
+	}
+	for _, c := range cases {
+		dir := copyStore(ca.dir, w.scratch)
+		path := dir + ".diff"
+		c.mk(path)
+		var res applyResult
+		func() {
+			defer func() {
+				if p := recover(); p != nil {
+					res.panicked = p
+				}
+			}()
+			res.err = rdb.ApplyDiff(path, dir)
+		}()
+		os.RemoveAll(path)
+		raw, err := dumpRaw(dir)
+		os.RemoveAll(dir)
+		if err != nil {
+			vlib.Infra("dump after ApplyDiff failed (store unreadable): %v", err)
+		}
+		atomic.AddInt64(&cnt.Applies, 1)
+		atomic.AddInt64(&cnt.FullDumps, 1)
+		atomic.AddInt64(&cnt.Evals, 1)
+		atomic.AddInt64(&cnt.StrictFaulty, 1)
+		kind := ""
+		switch {
+		case res.panicked != nil:
+			kind = "fault-panic"
+		case res.err == nil:
+			kind = "fault-accepted"
+		case raw.id() != ca.rawID:
+			kind = "fault-mutated"
+		}
+		if kind != "" {
+			det := fmt.Sprintf("%s: fresh copy of the store compiled from %s, rdb.ApplyDiff(diffpath, dir) for the diff towards %s %q where %s\nApplyDiff: %s\nstore before vs after (full dump): %s",
+				layouts[li], w.states[a].name, w.states[b].name, diff, c.desc, res, orSame(diffExact(raw, ca.ref)))
+			f.add(&failure{kind: kind, sub: c.class, li: li, path: []int{a, b}, detail: det, diffs: [][]string{abbreviateAll(diff)},
+				how: "compile files[0].preprocessed with rdb.Compile (serial 1234567), then rdb.ApplyDiff(diffpath, dir) where " + c.desc + " (mtime 1234567); compare a raw key/value dump before and after"})
+		}
+	}
 }
 
 // ---------------------------------------------------------------- BFS over exact store contents
@@ -555,6 +737,9 @@ func newBFS(w *world) *bfs {
 // with another line (only those can produce a value order that a fresh compile
 // does not produce).
 func (b *bfs) inUniverse(si int) bool {
+	if b.w.states[si].bulk {
+		return false
+	}
 	for _, x := range b.w.states[si].src {
 		if x >= shareKey {
 			return false
@@ -806,7 +991,7 @@ func (w *world) serialSkew(f *findings) {
 	var items [][2]int
 	for a := 0; a < n; a++ {
 		for b := 0; b < n; b++ {
-			if a != b && isSubLines(w.states[b].pre, w.states[a].pre) {
+			if a != b && isSubLines(w.states[b].pre, w.states[a].pre) && len(w.states[a].src) <= w.p.skewMaxLines {
 				items = append(items, [2]int{a, b})
 			}
 		}
